@@ -710,8 +710,56 @@ def rule_query(repo, tier):
     return res
 
 
+@guarded
+def rule_lossasgiven(repo, tier):
+    """ReduceToBason documents batched losses item by item ("all losses below tol", every item failed to decrease).  step() compares the loss it is given: apart from
+    the tensor conversion the parameter is not re-bound to a reduction (mean / sum / flatten / max): averaging "element-wise errors" over trailing dimensions also
+    averages a loss that has several BATCH dimensions, and the rules then see row means instead of items."""
+    res = RuleResult('C20.ASGIVEN', 'ReduceToBason.step applies its rules to the loss as given: the parameter is re-bound only by the tensor conversion, never to a '
+                     'reduction of itself', floor=1)
+    f = repo.func(STEP, 'ReduceToBason.step')
+    p0 = f.pos_params[1]
+    n = 0
+    for a in ast.walk(f.node):
+        if isinstance(a, ast.Assign) and any(isinstance(t, ast.Name) and t.id == p0 for t in a.targets):
+            n += 1
+            red = [c for c in ast.walk(a.value) if isinstance(c, ast.Call) and (dotted(c.func) or (c.func.attr if isinstance(c.func, ast.Attribute) else '')).split('.')[-1] in
+                   ('mean', 'sum', 'max', 'min', 'amax', 'amin', 'median', 'norm', 'flatten', 'reshape', 'view', 'nanmean', 'prod', 'squeeze')]
+            res.inst({'function': f.fq, 'rebinding': src(a)[:60], 'reduces the loss': bool(red)}, (f.fq, src(a)[:60]))
+            if red:
+                res.add(Finding('C20.ASGIVEN', f, '`%s` replaces the loss by a reduction of itself before the tolerance and patience rules: a loss with several batch dimensions is '
+                                'averaged over the trailing ones, an item above tol hides behind its row mean' % src(a)[:60], node=a, construct='loss reduced before the rules'))
+    res.inst({'function': f.fq, 'rebindings of the loss': n}, (f.fq, 'n'))
+    return res
+
+
+@guarded
+def rule_loadatomic(repo, tier):
+    """load_state_dict either installs the whole saved state or nothing: one update of the attribute dictionary.  A loop that writes entry by entry and raises on an
+    unexpected key leaves the scheduler with the entries written so far (max_steps, steps, _continual of the rejected checkpoint) when the caller catches the
+    error and goes on with the same object."""
+    res = RuleResult('C20.LOADATOM', '_Scheduler.load_state_dict cannot fail half-way: no raise / assert / fallible lookup is reachable after its first write of an attribute',
+                     floor=1)
+    f = repo.find_method(repo.cls(SCHED, '_Scheduler'), 'load_state_dict')
+    writes = [n for n in ast.walk(f.node) if (isinstance(n, ast.Call) and isinstance(n.func, ast.Attribute) and n.func.attr in ('update', '__setattr__', 'setdefault')) or
+              (isinstance(n, ast.Call) and dotted(n.func) == 'setattr') or
+              (isinstance(n, (ast.Assign, ast.AugAssign)) and any(isinstance(t, (ast.Subscript, ast.Attribute)) for t in (n.targets if isinstance(n, ast.Assign) else [n.target])))]
+    if not writes:
+        raise AnalysisError('C20.LOADATOM: load_state_dict no longer writes the state')
+    raises = [n for n in ast.walk(f.node) if isinstance(n, (ast.Raise, ast.Assert))]
+    loops = [n for n in ast.walk(f.node) if isinstance(n, (ast.For, ast.While))]
+    first = min(w.lineno for w in writes)
+    bad = [r for r in raises if r.lineno > first or any(any(x is r for x in ast.walk(lp)) and any(any(x is w for x in ast.walk(lp)) for w in writes) for lp in loops)]
+    res.inst({'function': f.fq, 'writes': len(writes), 'raise / assert reachable after a write': len(bad)}, f.fq)
+    for r in bad:
+        res.add(Finding('C20.LOADATOM', f, '`%s` can fire after part of the state has been written (entry-by-entry loading): a rejected checkpoint leaves its first entries - '
+                        'max_steps, steps, _continual - in the scheduler, which then reports continual() False without a step' % src(r)[:50].replace('\n', ' '), node=r,
+                        construct='load_state_dict can fail half-way'))
+    return res
+
+
 def _rules_core(repo, tier):
-    return [rule_state(repo, tier), rule_query(repo, tier), __import__('sa.mode', fromlist=['x']).rule_argattr(repo, 'C20.DRVCONF', ['pypose.module.mpc', 'pypose.module.icp']), __import__('sa.mode', fromlist=['x']).rule_sharedstate(repo, 'C20.DRVSHARED', ['pypose.module.mpc', 'pypose.module.icp']), rule_latch(repo, tier), rule_reset(repo, tier), rule_budget(repo, tier), rule_pat(repo, tier), rule_drv(repo, tier),
+    return [rule_state(repo, tier), rule_query(repo, tier), rule_lossasgiven(repo, tier), rule_loadatomic(repo, tier), __import__('sa.mode', fromlist=['x']).rule_argattr(repo, 'C20.DRVCONF', ['pypose.module.mpc', 'pypose.module.icp']), __import__('sa.mode', fromlist=['x']).rule_sharedstate(repo, 'C20.DRVSHARED', ['pypose.module.mpc', 'pypose.module.icp']), rule_latch(repo, tier), rule_reset(repo, tier), rule_budget(repo, tier), rule_pat(repo, tier), rule_drv(repo, tier),
             rule_clause(repo, tier)]
 
 
